@@ -882,6 +882,32 @@ def unknown_suite(tier, seed):
                 lines.append('end')
                 text.append('\n'.join(lines) + '\n')
                 cases.append({'name': 'u%d.call' % i, 'kind': 'call-time', 'pol': pol, 'reg': reg, 'expect': expect})
+        # ---- a class that WAS registered: register, update, unregister it, update again, then use it (checked policies)
+        for i in range(n // 3):
+            pol = ['chk', 'thr', 'proj', 'chk2'][i % 4]
+            reg = gen_registry(rng, shapes=shapes_of(pol), max_classes=6, max_methods=2, max_arity=2)
+            nn = reg['n']; ghost = nn + 1
+            par = [c for c in range(1, nn + 1)]
+            base = rng.choice(par)
+            lines = ['case u%d.gone' % i, 'ids small'] + case_lines(reg, pol, update=False)
+            lines.append('@%s class %d 0 %d %d' % (pol, ghost, ghost, base))       # record index = len(records)
+            lines.append('@%s update' % pol)
+            lines.append('@%s mkvptr %d' % (pol, ghost))
+            lines.append('@%s del class %d' % (pol, len(reg['records'])))
+            lines.append('@%s update' % pol)
+            expect = {'mkvptr %d' % ghost: 'unknown_class %d' % ghost, 'probe %d' % ghost: 'unknown_class %d' % ghost}
+            lines.append('@%s mkvptr %d' % (pol, ghost)); lines.append('@%s probe %d' % (pol, ghost))
+            slots_ok = slot_assignment(reg, shapes_of(pol))
+            anc = ancestors({int(a): b for a, b in reg['parents'].items()}, nn)
+            for mi, m in enumerate(reg['methods']):
+                if not slots_ok[mi]: continue
+                ids = [rng.choice([d for d in range(1, nn + 1) if p in anc[d]]) for p in m['vp']]
+                k = rng.below(len(ids)); ids[k] = ghost
+                lines.append('@%s callx %d %s' % (pol, mi, ' '.join(map(str, ids))))
+                expect['callx %d %s' % (mi, ' '.join(map(str, ids)))] = 'unknown_class %d' % ghost
+            lines.append('end')
+            text.append('\n'.join(lines) + '\n')
+            cases.append({'name': 'u%d.gone' % i, 'kind': 'call-time after unregistration', 'pol': pol, 'reg': reg, 'expect': expect, 'last_only': True})
         impl = {}; model = {}
         for b0 in range(0, len(text), 300):
             impl.update(run_h1(binp, ''.join(text[b0:b0 + 300]), timeout=1200))
